@@ -79,8 +79,7 @@ ParSetSmall(k) ==
                       [DefPar EXCEPT !.gamma = One, !.delta = One],
                       [DefPar EXCEPT !.gamma = Half, !.delta = One, !.lo = I(-1), !.hi = Zero]}
     [] k = "mrq"  -> {[DefPar EXCEPT !.gamma = Half, !.rs = I(2), !.trs = Half],
-                      [DefPar EXCEPT !.gamma = One, !.rs = Half, !.trs = I(2)],
-                      [DefPar EXCEPT !.gamma = Half]}
+                      [DefPar EXCEPT !.gamma = One, !.rs = Half, !.trs = I(2)]}
     [] k = "enc"  -> {DefPar,
                       [DefPar EXCEPT !.dw = I(2), !.rw = One, !.normtgt = FALSE],
                       [DefPar EXCEPT !.tw = I(2), !.envterm = FALSE],
@@ -301,9 +300,17 @@ Trainable(k) ==
 ZeroGroups(k) == (TargetDeps(k) \cup (IF k = "td7" THEN {"fixed_embedding"} ELSE IF k = "mrq" THEN {"encoder"} ELSE {})) \ Deps(k)
 
 ----------------------------------------------------------------------------
+Terminated(k, rw) == IF k = "mrq" THEN \E t \in 1..H : rw.x.ts[t] = 1 ELSE rw.x.term = 1
+(* irrelevant cells of a vector: rows whose whole bootstrap part must not matter (TerminatedNoBootstrap); *)
+(* for the encoder loss the (row, step) pairs after the first termination (AfterTermIgnored)             *)
+Irrelevant(k, rws) ==
+  CASE k = "enc"  -> {c \in Idx(rws) \X (1..H) : Mask(rws[c[1]].x.ts, c[2]) = 0}
+    [] k = "sale" -> {}
+    [] OTHER      -> {i \in Idx(rws) : Terminated(k, rws[i])}
+
 Emit(alts) ==
   EMIT => PrintT(<<"EMIT", ToJson([kind |-> kind, n |-> n, par |-> par, rows |-> rows, alts |-> alts,
-                                    zero |-> ZeroGroups(kind), support |-> Deps(kind)])>>)
+                                    zero |-> ZeroGroups(kind), support |-> Deps(kind), irr |-> Irrelevant(kind, rows)])>>)
 
 Init == stage = "kind" /\ kind = "" /\ n = 0 /\ par = <<>> /\ pend = <<>> /\ rows = <<>>
 
@@ -343,19 +350,19 @@ AltBoots(k) ==
                       [Qn |-> [j \in 1..NA |-> IF j = 1 THEN Zero ELSE I(3)], Qt |-> [j \in 1..NA |-> IF j = 1 THEN I(3) ELSE Half]]}
     [] k \in Cont \cup {"mrq"} -> {[Q1t |-> I(3), Q2t |-> I(3), logp |-> I(2)], [Q1t |-> I(-2), Q2t |-> Half, logp |-> I(-1)]}
     [] OTHER -> {}
-Terminated(k, rw) == IF k = "mrq" THEN \E t \in 1..H : rw.x.ts[t] = 1 ELSE rw.x.term = 1
 TerminatedNoBootstrap ==
   (Done /\ kind \in Disc \cup Cont \cup {"mrq"}) =>
     LET base == Alts(kind, par, rows)
-    IN \A i \in Idx(rows) : Terminated(kind, rows[i]) =>
+    IN \A i \in Irrelevant(kind, rows) :
          \A b \in AltBoots(kind) : Alts(kind, par, [rows EXCEPT ![i].b = b]) = base
 
 (* MR.Q encoder: steps after the first termination of a row are ignored whatever is predicted / observed there *)
 AfterTermIgnored ==
   (Done /\ kind = "enc") =>
     LET o == EncEval(par, rows)
-    IN \A i \in Idx(rows) : \A t \in 1..H : Mask(rows[i].x.ts, t) = 0 =>
-         LET alt == [rows EXCEPT ![i].x.pd[t] = I(3), ![i].x.pz[t] = <<I(3), I(-2)>>, ![i].b.tz[t] = <<I(-2), Half>>,
+    IN \A c \in Irrelevant(kind, rows) :
+         LET i == c[1]  t == c[2]
+             alt == [rows EXCEPT ![i].x.pd[t] = I(3), ![i].x.pz[t] = <<I(3), I(-2)>>, ![i].b.tz[t] = <<I(-2), Half>>,
                                  ![i].x.r[t] = I(0), ![i].x.ts[t] = 1 - rows[i].x.ts[t]]
              a == EncEval(par, alt)
          IN <<a.dyn, a.done, a.rmse, a.cr, a.exact>> = <<o.dyn, o.done, o.rmse, o.cr, o.exact>>
